@@ -29,6 +29,8 @@ EXTENDED = [
     ("$[?@.a in [1, 'a']]", "objarr"), ("$[?'a' in @]", "nest2"), ("$[?@ contains 'a']", "nest2"), ("$[?@.a in _.a]", "objarr"),
     ("$[?@.a =~ /a.*/i]", "objarr"), ("$[?@.a <> 1]", "objarr"), ("$[?@.a and not @.b]", "objarr"), ("$[?@.a == undefined]", "objarr"),
     ("$[?@.b != missing or @.a == nil]", "objarr"), ("a.*", "obj2"), ("$[a, b]", "obj2"), ("$[?typeof(@.a) == 'number']", "objarr"),
+    ("$[?$[?@.a == _.k]]", "objarr"), ("$.xs[?@.a == value($.xs[?@.b == _.k].a)]", "wrapobjarr"), ("$.items[?@.xs[?$.items[?@.k == _.k]]]", "nestk"),
+    ("$[?count($[?@.a == _.k]) > #]", "objarr"),
     ("$[?isinstance(@.a, 'string')]", "objarr"), ("$[?@.a == True || @.a == None]", "objarr"), ("$.*[?@.a in $.b]", "deep"),
 ]
 COMPOUND = [
